@@ -696,8 +696,9 @@ class Exec:
             if isinstance(op, (ast.Eq, ast.NotEq)):
                 r = self.struct_eq(a, b)
                 return r if isinstance(op, ast.Eq) else z3.Not(r)
-            if isinstance(op, (ast.In, ast.NotIn)) and isinstance(b, Tup):
-                r = z3.Or(*[self.struct_eq(a, x) for x in b]) if len(b) else z3.BoolVal(False)
+            if isinstance(op, (ast.In, ast.NotIn)) and isinstance(b, (Tup, LRef)):
+                items = list(b) if isinstance(b, Tup) else list(st.heap[b.sid].items)
+                r = z3.Or(*[self.struct_eq(a, x) for x in items]) if len(items) else z3.BoolVal(False)
                 return r if isinstance(op, ast.In) else z3.Not(r)
             raise Undecided("ordering on None/str/tuple")
         if isinstance(op, (ast.In, ast.NotIn)):
@@ -1583,7 +1584,35 @@ class Exec:
         return result
 
     def st_FunctionDef(self, n, st):
-        raise Undecided("nested function definition")
+        """nested `def f(params): return <expression>`: inlined at its calls (defaults evaluated at definition, free names read at the call,
+        as Python's late-binding closures do)"""
+        from . import loader
+        body = loader.strip_docstring(n)
+        a = n.args
+        if n.decorator_list or len(body) != 1 or not isinstance(body[0], ast.Return) or body[0].value is None or a.vararg or a.kwarg or a.kwonlyargs or a.posonlyargs:
+            raise Undecided("nested function definition other than a single return expression")
+        params = [x.arg for x in a.args]
+        defaults = {p: self.ev(d, st) for p, d in zip(params[len(params) - len(a.defaults):], a.defaults)}
+        ret = body[0].value
+
+        def fn(ex, s, args, kw, node):
+            if len(args) > len(params) or any(k not in params for k in kw):
+                raise Undecided(f"call of nested function {n.name}")
+            bound = dict(defaults)
+            bound.update(zip(params, args))
+            bound.update(kw)
+            if any(p not in bound for p in params):
+                raise Undecided(f"missing argument in call of nested function {n.name}")
+            saved = s.env
+            s.env = dict(saved, **bound)
+            try:
+                return ex.ev(ret, s)
+            finally:
+                ghost = {k: v for k, v in s.env.items() if k.startswith("__")}       # ghost state written by modelled callees survives the call
+                s.env = saved
+                s.env.update(ghost)
+        st.env[n.name] = FuncV(fn, n.name)
+        return [st]
 
     # ---- loops
     def assigned(self, body):
